@@ -117,6 +117,41 @@ pub fn run() -> i32 {
     if env_log[1] != env_log[4] || env_log[1].2 == env_log[2].2 {
         bad += 1;
     }
+    // S9: simulated threads see the simulated environment variables and process id
+    {
+        let names = ["PATH", "HOME", "RAYON_NUM_THREADS", "GEO_DEBUG", "LANG", "OMP_NUM_THREADS", "GEO_PARALLEL_THRESHOLD", "TZ"];
+        let mut seen = vec![];
+        for (seed, workers) in [(0u64, 3usize), (21, 3), (22, 5), (21, 3)] {
+            crate::seams::begin_env(0, 0);
+            crate::seams::set_envvar_seed(seed, workers);
+            let cfg = Config { workers, strategy: Strategy::Uniform, seed: 9, thread_start: Some(crate::seams::mark_sim_thread), ..Config::default() };
+            let (r, _) = sim::run(cfg, move || {
+                let vals: Vec<Option<String>> = names.iter().map(|n| std::env::var(n).ok()).collect();
+                let on_workers: Vec<(Option<String>, u32)> = (0..8u32).into_par_iter().map(|_| (std::env::var("RAYON_NUM_THREADS").ok(), std::process::id())).collect();
+                (vals, on_workers, std::process::id())
+            });
+            let harness_path = std::env::var("PATH").ok();
+            let harness_pid = std::process::id();
+            let st = crate::seams::envvar_stats();
+            crate::seams::end_env();
+            let (vals, on_workers, pid) = r.unwrap();
+            println!("envvars seed={} workers={}: {:?} pid={} reads={} pid_reads={}", seed, workers, vals, pid, st.0, st.1);
+            let real_pid = unsafe { libc::syscall(libc::SYS_getpid) } as u32;
+            if harness_path.is_none() || harness_pid != real_pid || st.0 != 16 || st.1 != 9 || on_workers.iter().any(|w| w.0 != vals[2] || w.1 != pid) {
+                bad += 1;
+            }
+            if seed == 0 && (vals.iter().any(|v| v.is_some()) || pid != 4242) {
+                bad += 1;
+            }
+            if seed != 0 && (vals.iter().all(|v| v.is_none()) || pid == real_pid) {
+                bad += 1;
+            }
+            seen.push((vals, pid));
+        }
+        if seen[1] != seen[3] || seen[1] == seen[2] {
+            bad += 1;
+        }
+    }
     // S8: simulated threads run on simulator-placed stacks: the addresses of their locals are a
     // function of the stack seed alone (and lie in the fixed area); a panic crosses the switch
     let mut stack_log = vec![];
